@@ -1169,7 +1169,9 @@ V('rowmapmany',
 V('melt', lambda e, w: e.melt(w.s[0], 'a', variablefield='var',
                               valuefield='val'),
   lambda e, w: e.melt(w.s[0], variables=['b', 'c']),
-  lambda e, w: e.melt(w.s[0], key=['a', 'b', 'c']))
+  lambda e, w: e.melt(w.s[0], key=['a', 'b', 'c']),
+  # (no key fields at all: every field is a variable)
+  lambda e, w: e.melt(w.s[0], key=w.arg([])))
 V('recast',
   # (the dict form of variablefield, names not in sorted order)
   lambda e, w: e.recast(e.melt(w.s[0], 'a', variables=['b', 'c']),
